@@ -15,8 +15,6 @@ namespace Proofs.ResolverStatic
 open Martian.Dataflow Martian.Resolver Martian.ResolverForks Martian.ResolverStatic Proofs.Dataflow
   Proofs.ResolverForks
 
-def eraseInst (i : Inst) : Inst := { i with args := J.erase i.args }
-
 /-- the recorded stage outputs are JSON: no `dnull` inside -/
 def OracleClean (O : Oracle) : Prop := ∀ k v, O k = some v → J.clean v = true
 
